@@ -17,12 +17,13 @@ func init() {
 		ID: "C40",
 		Explanation: "Decides structural necessary conditions of C40: (OPEN-OWNED) every file descriptor the evaluator itself opens (os.Pipe in pipelines and PipePort, os.OpenFile in redirections) is, on the success path, recorded as owned by the form (formOwnedPort.File) so that the per-form epilogue closes it, or closed/handed to a cleanup function in the same function; (CLEANUP-CALLED) every cleanup/collect function returned by PipePort, CapturePort, ValueCapturePort, StringCapturePort, FilePort and PortsFromFiles is called (directly or deferred) on every path of its caller after the success edge, or returned to that caller's caller; (REPLACE-CLOSES) in a redirection the port previously in the destination slot is closed (if owned) before the slot is overwritten; (JOINED) every goroutine started by the evaluator is joined (shared with C19). Descriptor counts and fault paths (os.Pipe failing in the middle of a pipeline) are not decided.",
 		NotCovered:  "descriptor counts; the path on which os.Pipe fails after earlier stages were started (recorded as a note); files opened explicitly by scripts (excluded by the property)",
-		Rules:       []string{"OPEN-OWNED", "CLEANUP-CALLED", "REPLACE-CLOSES", "JOINED"},
+		Rules:       []string{"OPEN-OWNED", "CLEANUP-CALLED", "REPLACE-CLOSES", "OWN-PAIR: an ownership record is reset after its port is closed, and cleared only after closing through the same slot", "JOINED"},
 		Patterns:    []string{"./pkg/eval/...", "./pkg/mods/...", "./pkg/edit/...", "./pkg/shell/..."},
 		Run: func(p *core.Program, r *core.Report) {
 			runOpenOwned(p, r)
 			runCleanupCalled(p, r)
 			runReplaceCloses(p, r, "REPLACE-CLOSES")
+			runOwnPair(p, r, "OWN-PAIR")
 			runJoined(p, r, "JOINED")
 		},
 		MinCounts: map[string]int{"OPEN-OWNED": 3, "CLEANUP-CALLED": 6, "REPLACE-CLOSES": 2, "JOINED": 8},
@@ -34,6 +35,7 @@ func init() {
 			{Name: "capture-collect-skipped-on-exception", Rule: "CLEANUP-CALLED", File: "pkg/eval/compile_value.go", Old: "\texc := op.subop.exec(fm.forkWithOutput(outPort))\n\treturn collect(), exc", New: "\texc := op.subop.exec(fm.forkWithOutput(outPort))\n\tif exc != nil {\n\t\treturn nil, exc\n\t}\n\treturn collect(), exc", Fire: true, Quick: true, Patterns: []string{"./pkg/eval"}},
 			{Name: "pipeoutput-done-skipped", Rule: "CLEANUP-CALLED", File: "pkg/eval/frame.go", Old: "\terr = f(fm.forkWithOutput(outPort))\n\tdone()\n\treturn err", New: "\terr = f(fm.forkWithOutput(outPort))\n\tif err == nil {\n\t\tdone()\n\t}\n\treturn err", Fire: true, Patterns: []string{"./pkg/eval"}},
 			{Name: "redir-overwrites-without-close", Rule: "REPLACE-CLOSES", File: "pkg/eval/compile_effect.go", Old: "\tcloseOldDst()\n\tsrc, err := evalForValue(fm, op.srcOp, \"redirection source\")", New: "\tsrc, err := evalForValue(fm, op.srcOp, \"redirection source\")", Fire: true, Patterns: []string{"./pkg/eval"}},
+			{Name: "ownership-not-reset-after-close", Rule: "OWN-PAIR", File: "pkg/eval/compile_effect.go", Old: "\t\t\tdstFop.close(*dstPort)\n\t\t\t*dstFop = formOwnedPort{File: false, Chan: false}", New: "\t\t\tdstFop.close(*dstPort)", Fire: true, Patterns: []string{"./pkg/eval"}},
 			{Name: "benign-defer-done", Rule: "CLEANUP-CALLED", File: "pkg/eval/frame.go", Old: "\terr = f(fm.forkWithOutput(outPort))\n\tdone()\n\treturn err", New: "\tdefer done()\n\treturn f(fm.forkWithOutput(outPort))", Fire: false, Patterns: []string{"./pkg/eval"}},
 		},
 	})
@@ -41,7 +43,7 @@ func init() {
 		ID: "C42",
 		Explanation: "Decides structural necessary conditions of C42: (FLAGS) the open(2) flags compiled for each redirection mode are exactly what the mode means - < is O_RDONLY; > has O_WRONLY|O_CREATE|O_TRUNC and not O_APPEND; >> has O_WRONLY|O_CREATE|O_APPEND and not O_TRUNC; <> has O_RDWR|O_CREATE and neither O_TRUNC nor O_APPEND - and every mode of the parser's enumeration has a case; (FD-RANGE) every index into the port table with an fd evaluated from the program is guarded on both sides, and the table is never grown by an unbounded fd; (DUP-SELF) the port duplicated by n>&m is never one that the same redirection has just closed (m = n is a no-op); (OPEN-OWNED) a file opened by a redirection is recorded as owned by the form, which closes it when the form finishes; (REPLACE-CLOSES) the old destination port is closed before being replaced; (SENDERR-NONNIL) the port installed by n>&- raises an exception on value output. That bytes actually reach the file is not decided.",
 		NotCovered:  "actual data routing at run time; OS-level semantics of the flags",
-		Rules:       []string{"FLAGS", "FD-RANGE", "DUP-SELF", "OPEN-OWNED", "REPLACE-CLOSES", "SENDERR-NONNIL"},
+		Rules:       []string{"FLAGS", "FD-RANGE", "DUP-SELF", "OPEN-OWNED", "REPLACE-CLOSES", "OWN-PAIR", "SENDERR-NONNIL"},
 		Patterns:    []string{"./pkg/eval/...", "./pkg/mods/..."},
 		Run: func(p *core.Program, r *core.Report) {
 			runRedirFlags(p, r)
@@ -53,6 +55,7 @@ func init() {
 			runDupSelf(p, r)
 			runOpenOwnedRedir(p, r, "OPEN-OWNED")
 			runReplaceCloses(p, r, "REPLACE-CLOSES")
+			runOwnPair(p, r, "OWN-PAIR")
 			runSendErrNonNil(p, r)
 		},
 		MinCounts: map[string]int{"FLAGS": 5, "FD-RANGE": 3, "DUP-SELF": 1, "OPEN-OWNED": 1, "REPLACE-CLOSES": 2, "SENDERR-NONNIL": 2},
@@ -63,6 +66,7 @@ func init() {
 			{Name: "write-without-trunc", Rule: "FLAGS", File: "pkg/eval/compile_effect.go", Old: "return os.O_WRONLY | os.O_CREATE | os.O_TRUNC", New: "return os.O_WRONLY | os.O_CREATE", Fire: true, Patterns: []string{"./pkg/eval"}},
 			{Name: "revert-fix-self-redirect", Rule: "DUP-SELF", File: "pkg/eval/compile_effect.go", Old: "\t\tif src == dst && *dstPort != nil {\n\t\t\t// Redirecting a port to itself is a no-op. In particular, the\n\t\t\t// port must not be closed and then reused.\n\t\t\treturn nil\n\t\t}\n", New: "", Fire: true, Quick: true, Patterns: []string{"./pkg/eval"}},
 			{Name: "revert-fix-negative-fd", Rule: "FD-RANGE", File: "pkg/eval/compile_effect.go", Old: "if dst < 0 || dst > maxRedirFD {", New: "if dst > maxRedirFD {", Fire: true, Patterns: []string{"./pkg/eval"}},
+			{Name: "benign-dst-captured-by-closure", Rule: "FD-RANGE", File: "pkg/eval/compile_effect.go", Old: "\tdstPort := growAccess(&fm.ports, dst)\n", New: "\tdefer func() { _ = dst }()\n\tdstPort := growAccess(&fm.ports, dst)\n", Fire: false, Patterns: []string{"./pkg/eval"}},
 			{Name: "benign-flags-through-named-constant", Rule: "FLAGS", File: "pkg/eval/compile_effect.go", Old: "\t\treturn os.O_WRONLY | os.O_CREATE | os.O_TRUNC", New: "\t\tconst writeFlags = os.O_WRONLY | os.O_CREATE | os.O_TRUNC\n\t\treturn writeFlags", Fire: false, Patterns: []string{"./pkg/eval"}},
 		},
 	})
